@@ -594,4 +594,113 @@ theorem typed_some {l : IntLit} {t : CType} {v : Int} (h : l.typed = some (t, v)
       exact ⟨n, rfl, rfl, by simpa using List.find?_some hf⟩
     · cases h
 
+/-- Plain and simply-escaped character constants have their C value. -/
+theorem char_agrees_aux (c : Char) (t : CType) (v : Int) :
+    (plainChar c = some (t, v) → parseConst ['\'', c, '\''] = .ok v) ∧
+    (escapeChar c = some (t, v) → parseConst ['\'', '\\', c, '\''] = .ok v) := by
+  constructor
+  · intro h
+    unfold plainChar at h
+    split at h
+    · simp only [Option.some.injEq, Prod.mk.injEq] at h
+      obtain ⟨_, rfl⟩ := h
+      simp [parseConst]
+    · cases h
+  · intro h
+    rw [escape_eq] at h
+    cases hse : simpleEscape c with
+    | none => simp [hse] at h
+    | some n =>
+      simp only [hse] at h
+      obtain ⟨_, rfl⟩ := h
+      simp [parseConst, hse]
+
+/-- cffi's table of names agrees with C's scope on the names C knows. -/
+def EnvAgree (cenv : CConstExpr.Env) (penv : ConstExpr.Env) : Prop :=
+  ∀ n t v, cenv n = some (t, v) → penv n = some v
+
+/-- Values bound in C's scope are representable in their types. -/
+def EnvOk (cenv : CConstExpr.Env) : Prop :=
+  ∀ n t v, cenv n = some (t, v) → t.inRange v = true
+
+theorem eval_agrees_aux (cenv : CConstExpr.Env) (penv : ConstExpr.Env)
+    (hag : EnvAgree cenv penv) (hok : EnvOk cenv) (e : CExpr) :
+    allSigned cenv e = true → ∀ t v, CConstExpr.eval cenv e = some (t, v) →
+      ConstExpr.eval penv e.toModel = .ok v ∧ t.signed = true ∧ t.inRange v = true := by
+  induction e with
+  | int l =>
+    intro hs t v h
+    have hsg : t.signed = true := by simpa [allSigned, sgn, h] using hs
+    simp only [CConstExpr.eval] at h
+    obtain ⟨n, hv, rfl, hr⟩ := typed_some h
+    exact ⟨by simpa [CExpr.toModel, ConstExpr.eval] using parseConst_render l n hv, hsg, hr⟩
+  | chr c =>
+    intro hs t v h
+    have hsg : t.signed = true := by simpa [allSigned, sgn, h] using hs
+    simp only [CConstExpr.eval] at h
+    refine ⟨(char_agrees_aux c t v).1 h, hsg, ?_⟩
+    unfold plainChar at h
+    split at h
+    · simp only [Option.some.injEq, Prod.mk.injEq] at h
+      obtain ⟨rfl, rfl⟩ := h
+      simp [CType.inRange, CType.minVal, CType.maxVal, CType.int, CType.width]; omega
+    · cases h
+  | esc c =>
+    intro hs t v h
+    have hsg : t.signed = true := by simpa [allSigned, sgn, h] using hs
+    simp only [CConstExpr.eval] at h
+    refine ⟨(char_agrees_aux c t v).2 h, hsg, ?_⟩
+    rw [escape_eq] at h
+    cases hse : simpleEscape c with
+    | none => simp [hse] at h
+    | some n =>
+      simp only [hse] at h
+      obtain ⟨rfl, rfl⟩ := h
+      have := simpleEscape_le c n hse
+      simp [CType.inRange, CType.minVal, CType.maxVal, CType.int, CType.width]; omega
+  | pos e ih =>
+    intro hs t v h
+    simp only [allSigned, Bool.and_eq_true] at hs
+    simp only [CConstExpr.eval] at h
+    exact ih hs.1 t v h
+  | neg e ih =>
+    intro hs t v h
+    simp only [allSigned, Bool.and_eq_true] at hs
+    simp only [CConstExpr.eval] at h
+    cases he : CConstExpr.eval cenv e with
+    | none => simp [he] at h
+    | some x =>
+      obtain ⟨t1, v1⟩ := x
+      simp only [he] at h
+      obtain ⟨hm, hs1, _⟩ := ih hs.1 t1 v1 he
+      obtain ⟨rfl, rfl, hr⟩ := arith_signed' hs1 h
+      refine ⟨?_, hs1, hr⟩
+      simp [CExpr.toModel, ConstExpr.eval, hm, bind, Except.bind, pure, Except.pure]
+  | ref n =>
+    intro hs t v h
+    have hsg : t.signed = true := by simpa [allSigned, sgn, h] using hs
+    simp only [CConstExpr.eval] at h
+    refine ⟨?_, hsg, hok n t v h⟩
+    simp [CExpr.toModel, ConstExpr.eval, hag n t v h]
+  | bin op l r ihl ihr =>
+    intro hs t v h
+    simp only [allSigned, Bool.and_eq_true] at hs
+    simp only [CConstExpr.eval] at h
+    cases hl : CConstExpr.eval cenv l with
+    | none => simp [hl] at h
+    | some x =>
+      cases hr : CConstExpr.eval cenv r with
+      | none => simp [hl, hr] at h
+      | some y =>
+        obtain ⟨t1, v1⟩ := x
+        obtain ⟨t2, v2⟩ := y
+        simp only [hl, hr] at h
+        obtain ⟨m1, s1, r1⟩ := ihl hs.1.1 t1 v1 hl
+        obtain ⟨m2, s2, r2⟩ := ihr hs.1.2 t2 v2 hr
+        have hb := binop_agrees op s1 s2 r1 r2 h
+        have hsr := binop_signed_inRange op s1 s2 h
+        refine ⟨?_, hsr.1, hsr.2⟩
+        simp [CExpr.toModel, ConstExpr.eval, m1, m2, bind, Except.bind, hb]
+
+
 end CffiVerif.CConstExpr
